@@ -372,7 +372,7 @@ class ColumnDefinition:
         elif column_text[0] == "[":
 
             # The column name is surrounded by brackets
-            match_object = match(r"^\[(.*?)\]", column_text)
+            match_object = match(r"^\[([^\]]*)\]", column_text)
 
             if not match_object:
                 log_message = "No bracket match found for sql column definition: {} with text: {}."
